@@ -122,6 +122,53 @@ pub fn day_num(y: i64, m: i64, d: i64) -> i64 {
     n + d
 }
 
+/// independent ISO week date -> day number: week 1 is the Monday-based week containing 4 January;
+/// `None` when ISO year `y` has no week `w` (the week's Thursday is not a day of calendar year `y`)
+pub fn iso_day_num(y: i64, w: i64, wd: i64) -> Option<i64> {
+    let jan4 = day_num(y, 1, 4);
+    let mon1 = jan4 - (jan4 + 6).rem_euclid(7);
+    let thu = mon1 + 7 * (w - 1) + 3;
+    if w < 1 || thu <= day_num(y, 1, 0) || thu > day_num(y + 1, 1, 0) {
+        return None;
+    }
+    Some(mon1 + 7 * (w - 1) + wd)
+}
+pub const MIN_DAYS: i64 = -95746129;
+pub const MAX_DAYS: i64 = 95745399;
+
+/// one `from_isoywd_opt` case: correspondence op + direct oracle against `iso_day_num`
+fn check_isoywd(c: &mut Ctx, yi: i32, w: u32, wd: usize) {
+    let r = guard(|| NaiveDate::from_isoywd_opt(yi, w, WD[wd]));
+    c.op(&format!("d.isoywd {yi} {w} {wd}"), &match r { Ok(o) => sod(o), Err(()) => "panic".into() });
+    let expect = iso_day_num(yi as i64, w as i64, wd as i64);
+    let in_range = |n: i64| (MIN_DAYS..=MAX_DAYS).contains(&n);
+    match r {
+        Ok(Some(x)) => {
+            let iw = x.iso_week();
+            if iw.year() != yi || iw.week() != w || x.weekday() != WD[wd] {
+                c.fail("from_isoywd_opt yields a date with a different ISO week date", &format!("d.isoywd {yi} {w} {wd} -> {}", show_obs(&x)));
+            }
+            if expect != Some(x.num_days_from_ce() as i64) {
+                c.fail("from_isoywd_opt yields a date that is not the day the ISO week date denotes", &format!("d.isoywd {yi} {w} {wd} -> {} (expected day {:?})", show_obs(&x), expect));
+            }
+            c.count(match x.year().cmp(&yi) {
+                std::cmp::Ordering::Less => "isoywd:date-in-previous-year",
+                std::cmp::Ordering::Equal => "isoywd:date-in-same-year",
+                std::cmp::Ordering::Greater => "isoywd:date-in-next-year",
+            });
+            if w >= 53 {
+                c.count("isoywd:week53-accepted");
+            }
+        }
+        Ok(None) => match expect {
+            Some(n) if in_range(n) => c.fail("from_isoywd_opt rejects an existing in-range ISO week date", &format!("d.isoywd {yi} {w} {wd} (day {n})")),
+            Some(_) => c.count("isoywd:out-of-range"),
+            None => c.count(if w == 53 { "isoywd:no-week-53" } else { "isoywd:no-such-week" }),
+        },
+        Err(()) => c.fail("from_isoywd_opt panicked", &format!("d.isoywd {yi} {w} {wd}")),
+    }
+}
+
 pub fn gen_year(c: &mut Ctx) -> i32 {
     let edges = [MIN_YEAR, MIN_YEAR + 1, MAX_YEAR, MAX_YEAR - 1, 0, 1, -1, -4, 4, 100, 400, 1600, 1900, 1970, 2000, 2024, 9999, 10000, -9999];
     match c.rng.below(4) {
@@ -233,18 +280,7 @@ pub fn run(c: &mut Ctx) {
         let w = match c.rng.below(6) { 0 => *c.rng.pick(&ext_u32), 1 => c.rng.range(51, 54) as u32, 2 => c.rng.below(3) as u32, _ => c.rng.range(1, 53) as u32 };
         let wd = c.rng.below(7) as usize;
         let yi = if c.rng.chance(1, 10) { *c.rng.pick(&[MIN_YEAR - 1, MIN_YEAR, MAX_YEAR, MAX_YEAR + 1, i32::MIN, i32::MAX]) } else { y };
-        let r = guard(|| NaiveDate::from_isoywd_opt(yi, w, WD[wd]));
-        c.op(&format!("d.isoywd {yi} {w} {wd}"), &match r { Ok(o) => sod(o), Err(()) => "panic".into() });
-        match r {
-            Ok(Some(x)) => {
-                let iw = x.iso_week();
-                if iw.year() != yi || iw.week() != w || x.weekday() != WD[wd] {
-                    c.fail("from_isoywd_opt yields a date with a different ISO week date", &format!("d.isoywd {yi} {w} {wd} -> {}", show_obs(&x)));
-                }
-            }
-            Ok(None) => {}
-            Err(()) => c.fail("from_isoywd_opt panicked", &format!("d.isoywd {yi} {w} {wd}")),
-        }
+        check_isoywd(c, yi, w, wd);
         // day number
         let n: i32 = match c.rng.below(5) {
             0 => *c.rng.pick(&ext_i32),
@@ -270,11 +306,11 @@ pub fn run(c: &mut Ctx) {
         }
     }
     // every ISO week date of the quick window: each date is reached from its own iso week date
-    let iso_years: Vec<i32> = if c.tier == Tier::Quick { (1990..2032).chain([MIN_YEAR, MIN_YEAR + 1, MAX_YEAR, MAX_YEAR + 1, -1, 0, 1]).collect() } else { (1600..2400).chain([MIN_YEAR, MIN_YEAR + 1, MAX_YEAR, MAX_YEAR + 1, -1, 0, 1]).collect() };
+    let iso_years: Vec<i32> = if c.tier == Tier::Quick { (1990..2032).chain([MIN_YEAR - 1, MIN_YEAR, MIN_YEAR + 1, MAX_YEAR, MAX_YEAR + 1, MAX_YEAR + 2, -1, 0, 1, i32::MIN, i32::MIN + 1, i32::MAX, i32::MAX - 1]).collect() } else { (1600..2400).chain([MIN_YEAR - 1, MIN_YEAR, MIN_YEAR + 1, MAX_YEAR, MAX_YEAR + 1, MAX_YEAR + 2, -1, 0, 1, i32::MIN, i32::MIN + 1, i32::MAX, i32::MAX - 1]).collect() };
     for y in iso_years {
         for w in 0..=54u32 {
-            for (i, wd) in WD.iter().enumerate() {
-                c.op(&format!("d.isoywd {y} {w} {i}"), &gs(|| NaiveDate::from_isoywd_opt(y, w, *wd), sod));
+            for i in 0..7usize {
+                check_isoywd(c, y, w, i);
             }
         }
     }
@@ -285,6 +321,11 @@ pub fn run(c: &mut Ctx) {
         let d = match i {
             0 => NaiveDate::MIN,
             1 => NaiveDate::MAX,
+            // a near neighbour of the previous date (same or adjacent ISO week, year boundaries)
+            _ if prev.is_some() && c.rng.chance(1, 4) => {
+                let n = prev.unwrap().num_days_from_ce() as i64 + c.rng.range(-8, 8);
+                NaiveDate::from_num_days_from_ce_opt(n as i32).unwrap_or(NaiveDate::MIN)
+            }
             _ => gen_date(c),
         };
         let y = yof(&d);
@@ -350,6 +391,14 @@ pub fn run(c: &mut Ctx) {
         }
         // ISO week spec: the Thursday of the date's Monday-based week decides year and week
         let thu = n - (n + 6).rem_euclid(7) + 3;
+        {
+            let iw = d.iso_week();
+            c.count(match iw.year().cmp(&d.year()) {
+                std::cmp::Ordering::Less => "isoweek:iso-year-before-calendar-year",
+                std::cmp::Ordering::Equal => if iw.week() == 53 { "isoweek:same-year-week53" } else { "isoweek:same-year" },
+                std::cmp::Ordering::Greater => "isoweek:iso-year-after-calendar-year",
+            });
+        }
         if let Ok(Some(t)) = guard(|| NaiveDate::from_num_days_from_ce_opt(thu as i32)) {
             let iw = d.iso_week();
             if iw.year() != t.year() || iw.week() != (t.ordinal() - 1) / 7 + 1 {
@@ -365,6 +414,16 @@ pub fn run(c: &mut Ctx) {
             if (q.iso_week().cmp(&d.iso_week()) as i32) * ((q.cmp(&d)) as i32) < 0 {
                 c.fail("ISO weeks compare against chronological order", &format!("{} vs {}", show_obs(&q), show_obs(&d)));
             }
+            // stronger: ISO weeks order exactly like the Thursdays of the two Monday-based weeks
+            let nq = q.num_days_from_ce() as i64;
+            let thu_q = nq - (nq + 6).rem_euclid(7) + 3;
+            if q.iso_week().cmp(&d.iso_week()) != thu_q.cmp(&thu) {
+                c.fail("ISO week order differs from the order of the weeks' Thursdays", &format!("{} vs {}", show_obs(&q), show_obs(&d)));
+            }
+            c.count(match thu_q.cmp(&thu) {
+                std::cmp::Ordering::Equal => "isoweek-order:same-week",
+                _ => "isoweek-order:different-week",
+            });
         }
         prev = Some(d);
         if i < 4 {
